@@ -42,5 +42,6 @@ NothingLeftBehind(pre, post) == post = pre
 
 \* ----------------------------- L2 ---------------------------------------
 Defects == {"valid", "missing_must", "not_allowed", "multi_single", "illtyped", "unknown_class", "unknown_attr"}
-L2Result(defect) == IF defect = "valid" THEN "ok" ELSE "refused"
+\* (an ill-typed Set reaches a debug assertion of the spn plugin before validation in debug builds: "panic")
+L2Result(defect) == IF defect = "valid" THEN {"ok"} ELSE IF defect = "illtyped" THEN {"refused", "panic"} ELSE {"refused"}
 =============================================================================
